@@ -220,22 +220,9 @@ func (e *Engine) DynCall(st *State, fv Val, args []Val, pos token.Pos) ([]Val, e
 	if !ok {
 		return nil, e.errf(pos, "call of non-function value")
 	}
-	sorts := []smt.Sort{smt.V}
-	terms := []smt.T{fv.T}
-	for _, a := range args {
-		sorts = append(sorts, a.T.Sort)
-		terms = append(terms, a.T)
-	}
 	var out []Val
 	for i := 0; i < sig.Results().Len(); i++ {
-		rt := sig.Results().At(i).Type()
-		name := fmt.Sprintf("apply%d!r%d", len(args), i)
-		for _, s := range sorts[1:] {
-			name += "!" + string(s[0])
-		}
-		name += "!" + string(SortOf(rt)[0])
-		e.Decls.Fun(name, sorts, SortOf(rt))
-		out = append(out, Val{smt.App(SortOf(rt), name, terms...), rt})
+		out = append(out, e.applyTerm(fv, args, sig, i))
 	}
 	if e.TraceOn {
 		// trace := trace ++ [call(f, args)]
@@ -726,4 +713,22 @@ func keyPkg(key string) string {
 		return key[:i]
 	}
 	return key
+}
+
+// applyTerm: result i of applying a function value to arguments (uninterpreted, deterministic).
+func (e *Engine) applyTerm(fv Val, args []Val, sig *types.Signature, i int) Val {
+	sorts := []smt.Sort{smt.V}
+	terms := []smt.T{fv.T}
+	for _, a := range args {
+		sorts = append(sorts, a.T.Sort)
+		terms = append(terms, a.T)
+	}
+	rt := sig.Results().At(i).Type()
+	name := fmt.Sprintf("apply%d!r%d", len(args), i)
+	for _, s := range sorts[1:] {
+		name += "!" + string(s[0])
+	}
+	name += "!" + string(SortOf(rt)[0])
+	e.Decls.Fun(name, sorts, SortOf(rt))
+	return Val{smt.App(SortOf(rt), name, terms...), rt}
 }
